@@ -79,10 +79,10 @@ func c04Gen(tier string, seed int64) []core.Case {
 	}
 	// ECDSA: the vendored (5,2) key, and fresh keys in thorough
 	type ecfg struct {
-		key                 string
-		n, t, olds, nn, nt  int
-		fault, sched        string
-		noproofs            bool
+		key                string
+		n, t, olds, nn, nt int
+		fault, sched       string
+		noproofs           bool
 	}
 	ec := []ecfg{
 		{"vendored", 5, 2, 3, 3, 1, "none", "fifo", false},
